@@ -488,5 +488,6 @@ func runC05(e *Engine, r *Report) {
 	borrow(e, r, "C12", "PAIR-pool")
 	ruleSessionRegisterResult(e, r)
 	ruleSessionSaveComplete(e, r)
+	ruleSessionSaveLive(e, r)
 	ruleSessionBytesWritten(e, r)
 }
